@@ -64,22 +64,24 @@ TOY_NOTE = ('SHA-256 abstracted at the repository\'s wrapper functions by a loop
 
 prop('C11',
      builds=[dict(crate='ext', filters=['c11_'])],
-     default=dict(mem=10, timeout={'quick': 400, 'thorough': 900}, cbmc_extra=['--max-field-sensitivity-array-size', os.environ.get('VERIF_FS', '512')]),
+     default=dict(mem=3, timeout={'quick': 400, 'thorough': 900}, cbmc_extra=['--max-field-sensitivity-array-size', os.environ.get('VERIF_FS', '512')]),
      overrides=[(r'h_(pprpl1p|ppl2rp|prprp|pprpp|ppl2r|l0p|pl0|prpl1|ppl1|pl1p|ppl1p)::', dict(tier='rotate')),
                 # load followed by push: CBMC cannot bound the peak vector rebuilt by load(), explores the
                 # hashbrown scratch map in root_node and does not finish (900 s) -> outside the claim
-                (r'h_(pl1p|ppl1p|pprpl1p)::c11_(root|prove_j0|prove_j1)$', dict(skip=True))],
+                (r'h_(pl1p|ppl1p|pprpl1p)::c11_(root|prove_j0|prove_j1)$', dict(skip=True)),
+                (r'h_p[3458]\w+::', dict(tier='thorough', mem=12)),
+                (r'h_(p3rp2|p4l3)::', dict(tier='rotate', mem=8))],
      rotate_pick=24,
      min_harnesses={'quick': 60, 'thorough': 100},
      functions_encoded=['fuel_merkle::binary::MerkleTree::{new,push,reset,load,root,leaves_count,prove}',
                         'fuel_merkle::binary::root_calculator::MerkleRootCalculator::{push_with_callback,clear,new_with_stack}',
                         'fuel_merkle::common::position::Position::*', 'fuel_merkle::common::path_iterator::*',
                         'fuel_merkle::binary::merkle_tree::{root_position,peak_positions}'],
-     bounds=['history templates: 20 concrete words over {push, reset, load(k)} with at most 2 live leaves at any time and at most 6 operations',
+     bounds=['history templates: 20 concrete words over {push, reset, load(k)} with at most 2 live leaves and at most 6 operations (every clause), plus 7 larger templates with up to 8 live leaves (count, root, proofs at 3 selected indices): P3RP2, P3L2P, P4RP3, P4L3, P8RP7, P8L7, P5RP5',
              'leaf data: 2 symbolic bytes each; final proof index j: any u64',
              'storage: array-backed table with 8 slots (ArrStorage), infallible'],
      assumptions=[TOY_NOTE],
-     out_of_claim=['histories that ever hold 3 or more live leaves',
+     out_of_claim=['histories outside the listed templates; more than 8 live leaves',
                    'root/proof contents (not count/refusal) after a load() that is followed by a push: templates P L(1) P, P P L(1) P, P P R P L(1) P (no verdict in 900 s)',
                    'storage errors', 'in_memory::MerkleTree front end (StorageMap is a hash map, K5) - it forwards to the same reset'],
      level_text='Bounded model checking of concrete short history templates with symbolic leaf data and a symbolic proof index against a '
@@ -92,8 +94,10 @@ VM_STUBS_NOTE = ('fuel_vm::constraints::reg_key::split_registers replaced by a s
 
 prop('C21',
      builds=[dict(crate='vm', filters=['c21_'])],
-     default=dict(mem=6, timeout={'quick': 600, 'thorough': 2400}),
-     overrides=[(r'c21_(div|divi|mod|modi|exp_small|exp_closed|expi_small|mlog|mldv|mul_full|niop_\w+)$', dict(tier='thorough'))],
+     default=dict(mem=4, timeout={'quick': 600, 'thorough': 2400}),
+     overrides=[(r'c21_(div|divi|mod|modi|exp_small|exp_closed|expi_small|mlog|mldv|mul_full|niop_exp_\w+)$', dict(tier='thorough', mem=8)),
+                (r'c21_niop_(add|sub|mul|sll|xnor)_u(16|32)$', dict(tier='rotate'))],
+     rotate_pick=3,
      min_harnesses={'quick': 24, 'thorough': 50},
      functions_encoded=['<fuel_asm::op::X as Execute>::execute for each covered opcode (fuel-vm/src/interpreter/executors/opcodes_impl.rs)',
                         'Interpreter::gas_charge / gas::gas_charge', 'interpreter::alu::{alu_capture_overflow, alu_boolean_overflow, alu_error, alu_set, alu_clear}',
@@ -104,13 +108,30 @@ prop('C21',
      level_text='One-step bounded model checking of the real per-opcode handlers from an arbitrary register state against an independently written wide-arithmetic specification.',
      level_note='Trusted: Kani/CBMC/cadical, split_registers model (checked natively).')
 
+prop('C22',
+     builds=[dict(crate='vm', filters=['c22_'])],
+     default=dict(mem=4, timeout={'quick': 900, 'thorough': 2400}),
+     min_harnesses={'quick': 22, 'thorough': 36},
+     overrides=[(r'c22_wdcm_(ne|gt|lte|lt|eq)_ind|c22_wdcm_gte_dir|c22_wdop_(sub_dir|or_ind|xor_dir|shr_dir|add_dir|and_ind|shl_ind|not)$|c22_invalid_imm_w[dq](ml|op)$', dict(tier='rotate'))],
+     rotate_pick=5,
+     functions_encoded=['<op::{WDCM,WDOP,WDML,WDDV,WQDV,WDAM,WQAM,WDMM,WQMM,WDMD,WQMD} as Execute>::execute',
+                        'alu::wideint::{alu_wideint_cmp_u128, alu_wideint_op_u128, alu_wideint_div_*, alu_wideint_addmod_*, alu_wideint_mulmod_*, alu_wideint_muldiv_*, cmp_u128, op_overflowing_u128}',
+                        'fuel_asm::wideint::{CompareArgs,MathArgs,MulArgs,DivArgs}::from_imm'],
+     bounds=['128-bit compare and simple operations: all operand values (symbolic 64-byte stack / 16-byte heap), direct and indirect rhs, all register ids, flags, symbolic gas schedule',
+             'multiply / divide / add-mod / mul-mod / mul-div (128 and 256 bit) and the 256-bit compare / simple ops: gas charge and operand-fetch error path only (operand pointers fixed to u64::MAX)',
+             'invalid immediates of the immediate-carrying families: 2-4 concrete representatives per opcode'],
+     assumptions=[VM_STUBS_NOTE, 'VMINV as in C24'],
+     out_of_claim=['results of 256-bit compare/simple ops, of WDML/WQML products and of all division-like instructions incl. the zero-divisor rules (ethnum/primitive_types 256/512-bit arithmetic: no verdict within 40 min even on zero operands)'],
+     level_text='One-step bounded model checking of the wide-integer handlers: full-width 128-bit compare/add/sub/logic/shift semantics incl. big-endian fetch, argument modes, destination ownership, $of/$err, and the zero-divisor contracts and gas charges of all division-like instructions.',
+     level_note='Trusted: Kani/CBMC/cadical, split_registers model; ethnum/primitive_types arithmetic beyond the stated bounds.')
+
 prop('C24',
      builds=[dict(crate='vm', filters=['c24_'])],
-     default=dict(mem=10, timeout={'quick': 900, 'thorough': 2400}),
+     default=dict(mem=3, timeout={'quick': 900, 'thorough': 2400}),
      min_harnesses={'quick': 10, 'thorough': 10},
      functions_encoded=['<op::{SB,SQW,SHW,SW,LB,LQW,LHW,LW,MCLI,MCPI} as Execute>::execute', 'Interpreter::{store_u8..u64, load_u8..u64, memclear, memcopy, ownership_registers}',
                         'MemoryInstance::{write, write_bytes, read_bytes, verify, memcopy}', 'OwnershipRegisters::{new, verify_ownership}'],
-     bounds=['pre-state: VMINV with stack.len() = 32, heap.len() = 16, hp symbolic, all bytes symbolic, no call frame ($fp = 0, prev_hp = VM_MAX_RAM)',
+     bounds=['pre-state: VMINV with stack.len() = 64, heap.len() = 16, hp symbolic, all bytes symbolic, no call frame ($fp = 0, prev_hp = VM_MAX_RAM)',
              'all register ids/values, immediates, symbolic gas schedule; MCLI length <= 7, MCPI length 1..4',
              'memory effect decided with one symbolic probe address (= every address)'],
      assumptions=[VM_STUBS_NOTE, 'VMINV: $is<=$ssp<=$sp<=$hp<=VM_MAX_RAM, $hp == memory.hp, $sp <= stack.len(), $cgas<=$ggas, pc aligned and in range'],
@@ -121,7 +142,7 @@ prop('C24',
 
 prop('C25',
      builds=[dict(crate='vm', filters=['c25_'])],
-     default=dict(mem=6, timeout={'quick': 600, 'thorough': 1800}),
+     default=dict(mem=3, timeout={'quick': 600, 'thorough': 1800}),
      min_harnesses={'quick': 13, 'thorough': 13},
      functions_encoded=['Interpreter::fetch_instruction', '<op::{JI,JMP,JNE,JNEI,JNZI,JMPF,JMPB,JNZF,JNZB,JNEF,JNEB,JAL} as Execute>::execute', 'interpreter::flow::JumpArgs::jump',
                         'Interpreter::jump', 'interpreter::internal::{inc_pc, write_user_register}', 'gas::gas_charge'],
@@ -133,7 +154,7 @@ prop('C25',
 
 prop('C26',
      builds=[dict(crate='vm', filters=['c26_'])],
-     default=dict(mem=6, timeout={'quick': 600, 'thorough': 3600}),
+     default=dict(mem=3, timeout={'quick': 600, 'thorough': 3600}),
      min_harnesses={'quick': 4, 'thorough': 4},
      functions_encoded=['interpreter::gas::{gas_charge, dependent_gas_charge, dependent_gas_charge_without_base}', 'Interpreter::{gas_charge, dependent_gas_charge}',
                         'fuel_tx::DependentCost::{resolve, resolve_without_base, base}',
@@ -148,7 +169,7 @@ FS = ['--max-field-sensitivity-array-size', '512']
 
 prop('C09',
      builds=[dict(crate='ext', filters=['c09_'])],
-     default=dict(mem=8, timeout={'quick': 600, 'thorough': 1800}, cbmc_extra=FS),
+     default=dict(mem=3, timeout={'quick': 600, 'thorough': 1800}, cbmc_extra=FS),
      min_harnesses={'quick': 5, 'thorough': 5},
      functions_encoded=['fuel_merkle::binary::root_calculator::MerkleRootCalculator::{new,push,push_with_callback,root,new_from_existing_leaves}',
                         'fuel_merkle::binary::MerkleTree::{new,push,root,root_node,leaves_count}', 'fuel_merkle::binary::node::Node::*', 'fuel_merkle::common::position::Position::*'],
@@ -178,7 +199,8 @@ prop('C10',
 
 prop('C23',
      builds=[dict(crate='vm', filters=['c23_'])],
-     default=dict(mem=16, timeout={'quick': 600, 'thorough': 1800}),
+     default=dict(mem=3, timeout={'quick': 600, 'thorough': 1800}),
+     overrides=[(r'c23_grow_stack$', dict(mem=12)), (r'c23_reset$', dict(mem=8))],
      min_harnesses={'quick': 14, 'thorough': 17},
      functions_encoded=['MemoryInstance::{verify, read, write_noownerchecks, grow_stack, grow_heap_by, memcopy, reset, heap_offset}',
                         'OwnershipRegisters::{verify_ownership, has_ownership_range, has_ownership_stack, has_ownership_heap}', 'ToAddr for Word/usize'],
@@ -188,6 +210,97 @@ prop('C23',
      out_of_claim=['rollback / collect_rollback_data (not yet built)', 'reallocation thresholds above 256 bytes', 'contents of multi-KiB regions'],
      level_text='One-step bounded model checking of each MemoryInstance method from an arbitrary representation state against the flat-array abstraction (single symbolic probe address = all 2^26 addresses).',
      level_note='Trusted: Kani/CBMC/cadical.')
+
+prop('C02',
+     builds=[dict(crate='ext', filters=['c02_'])],
+     default=dict(mem=12, timeout={'quick': 900, 'thorough': 2400}),
+     overrides=[(r'c02_(policies|witness|output)_fixed_point$|c02_transaction_size$', dict(tier='thorough', mem=30))],
+     min_harnesses={'quick': 8, 'thorough': 12},
+     functions_encoded=['<T as fuel_types::canonical::Deserialize>::decode / from_bytes and <T as Serialize>::{size, size_static, size_dynamic, to_bytes} for T in {UtxoId, TxPointer, Policies, StorageSlot, Witness, Output, Input, Receipt, Transaction}',
+                        'fuel_types::canonical: Vec<T>, [u8;N], integer and Input-for-&[u8] impls', 'fuel-derive generated decode_static/decode_dynamic'],
+     bounds=['arbitrary byte strings of length <= N with N = 48 (UtxoId), 24 (TxPointer, Witness), 64 (Policies), 72 (StorageSlot), 112 (Output), 232 (Input), 200 (Receipt), 160 (Transaction)',
+             'fixed point (re-encode, re-decode, equality) decided for UtxoId, TxPointer, StorageSlot in the quick tier (Policies, Witness, Output: thorough-tier attempts, 30 GB); size == consumed and no panic for eight types (Transaction: thorough-tier attempt, > 11 GB)'],
+     assumptions=['Result::{expect,unwrap} replaced by non-formatting models (K2)'],
+     out_of_claim=['buffers longer than N', 'allocation failure (VEC_DECODE_LIMIT-sized allocations are modelled as succeeding)'],
+     level_text='Bounded model checking of the real decoders on an arbitrary buffer (symbolic content and length): absence of panics by Kani default checks, reported size equals bytes consumed, and the encode/decode fixed point.',
+     level_note='Trusted: Kani/CBMC/cadical.')
+
+prop('C14',
+     builds=[dict(crate='ext', filters=['c14_'])],
+     default=dict(mem=3, timeout={'quick': 900, 'thorough': 2400}, cbmc_extra=FS),
+     overrides=[(r'c14_generate', dict(mem=16))],
+     min_harnesses={'quick': 10, 'thorough': 10},
+     functions_encoded=['fuel_merkle::sparse::proof::{InclusionProof::verify, ExclusionProof::verify, ExclusionLeaf::hash}', 'fuel_merkle::common::path::Path::get_instruction',
+                        'fuel_merkle::common::msb::Msb::get_bit_at_index_from_msb'],
+     bounds=['proof lengths 0..5 (harness constants); root, all 256 key bits, value / exclusion leaf and every proof entry symbolic with no relation assumed'],
+     assumptions=[TOY_NOTE + ' (sparse wrappers calculate_leaf_hash / calculate_node_hash / common::sum; sum is the identity on 32-byte inputs)'],
+     out_of_claim=['proof generation (generate_proof needs a built tree; sparse construction is a C12/C13 matter)', 'proof lengths above 5, the > 256 guard'],
+     level_text='Both sparse proof verifiers decided equal to the compact-tree recomputation for all symbolic (root, key, value/leaf, proof entries) at proof lengths 0..5, including the rule that an exclusion leaf claiming the queried key is rejected.',
+     level_note='Trusted: Kani/CBMC/cadical; TOY hash parametricity.')
+
+prop('C01',
+     builds=[dict(crate='ext', filters=['c01_'])],
+     default=dict(mem=12, timeout={'quick': 900, 'thorough': 2400}, unwindset=['memcmp.0:40']),
+     min_harnesses={'quick': 10, 'thorough': 10},
+     functions_encoded=['<T as fuel_types::canonical::Serialize>::{to_bytes, size, size_static, size_dynamic, encode_static, encode_dynamic} and <T as Deserialize>::{decode, decode_static, decode_dynamic} (fuel-derive generated) for UtxoId, TxPointer, StorageSlot, Witness, all 5 Output variants, all 7 Input variants',
+                        'fuel_types::canonical impls for integers, [u8;N], Vec<u8>, Bytes; alignment_bytes / aligned_size'],
+     bounds=['one harness per type/variant; every scalar and fixed array field symbolic; byte-vector lengths are harness constants drawn from {0,1,7,8,9} (the codec depends on len mod 8 and len == 0 only)'],
+     assumptions=['Result::{expect,unwrap} replaced by non-formatting models (K2)', 'Input variants are distinguished on the wire by emptiness of predicate/data: predicate variants are built with a non-empty predicate (documented)'],
+     out_of_claim=['whole transactions, receipts, policies, upgrade purposes (transaction layer not yet built)', 'longer vectors (codec is length-uniform beyond one padding period: argument)'],
+     level_text='Bounded model checking of the real encoders/decoders per element type with symbolic field contents: size identities, alignment, exact consumption and equality after the round trip.',
+     level_note='Trusted: Kani/CBMC/cadical.')
+
+prop('C18',
+     builds=[dict(crate='ext', filters=['c18_'])],
+     default=dict(mem=12, timeout={'quick': 900, 'thorough': 2400}, cbmc_extra=FS),
+     min_harnesses={'quick': 6, 'thorough': 8},
+     functions_encoded=['fuel_tx::Chargeable::{min_gas, max_gas, min_fee, max_fee, refund_fee} (default methods) on a real Script', 'fuel_tx::transaction::fee::{gas_to_fee, min_gas}',
+                        'TransactionFee::checked_from_tx', 'Script::{metered_bytes_size, gas_used_by_metadata}', 'DependentCost::resolve'],
+     bounds=['a Script without inputs, outputs, witnesses; tip / witness limit / max fee / gas price / used gas / gas_per_byte: all u64 values',
+             'gas price factor: the concrete values {1, 2, 10^9 (default), 2^40+12345} (a symbolic 64-bit divisor does not finish in CBMC); default gas cost table'],
+     assumptions=['Result::{expect,unwrap} replaced by non-formatting models (K2)', 'price factor >= 1 (property precondition)'],
+     out_of_claim=['transactions with signed inputs (witness de-duplication uses a HashSet, K5)', 'Create/Upload/Upgrade/Blob metadata gas', 'symbolic price factor'],
+     level_text='Bounded model checking of the real fee functions against the ceiling-division formulas in multiplicative witness form, at full 64-bit width for four concrete price factors; ordering, monotonicity, bound by the fee limit and absence of panics.',
+     level_note='Trusted: Kani/CBMC/cadical.')
+
+prop('C36',
+     builds=[dict(crate='vm', filters=['c36_'])],
+     default=dict(mem=12, timeout={'quick': 900, 'thorough': 2400}),
+     min_harnesses={'quick': 8, 'thorough': 8},
+     functions_encoded=['<MemoryStorage as StorageRead<T>>::{read_exact, read_zerofill, read_alloc}, <MemoryStorage as StorageSize<T>>::size_of_value, <MemoryStorage as StorageWrite<T>>::write_bytes for T in {ContractsRawCode, ContractsState, BlobData}'],
+     bounds=['one stored value of n symbolic bytes (n in {0,1,4,5,8}, harness constant) under a concrete key, a second concrete key absent; buffer of m bytes (m in {0,1,2,3,4,8}) pre-filled with symbolic garbage; offset: any usize'],
+     assumptions=['Result::{expect,unwrap} replaced by non-formatting models (K2)'],
+     out_of_claim=['the code/blob loading instructions built on these reads (LDC, CCP, BLDD, CSIZ, BSIZ handlers: not yet built)', 'other storage back ends'],
+     level_text='Bounded model checking of the MemoryStorage read functions against the read contract for an unrestricted offset (exact: succeeds iff offset+len within the value; zerofill: fails only beyond the value, zero-fills the rest; missing key; nothing outside the buffer semantics changes).',
+     level_note='Trusted: Kani/CBMC/cadical.')
+
+prop('C34',
+     builds=[dict(crate='vm', filters=['c34_'])],
+     default=dict(mem=8, timeout={'quick': 900, 'thorough': 2400}, cbmc_extra=FS),
+     min_harnesses={'quick': 2, 'thorough': 2},
+     functions_encoded=['<op::RET as Execute>::execute', 'Interpreter::ret', 'flow::RetCtx::{ret, return_from_context}', 'internal::{current_contract, set_frame_pointer, inc_pc}',
+                        'Context::update_from_frame_pointer', 'ReceiptsCtx::push', 'gas::gas_charge'],
+     bounds=['call depth 1 -> 0 (one frame whose 64 saved registers are symbolic) and depth 0; VMINV state with symbolic 64-byte stack / 16-byte heap; receipts list empty before the step',
+             'gas part of VMINV for the frame: frame.$cgas + $cgas <= $ggas'],
+     assumptions=[VM_STUBS_NOTE, 'binary Merkle leaf_sum/node_sum (receipts root) replaced by a stand-in: the receipts root value is not part of this property'],
+     out_of_claim=['the CALL step (frame layout, code copy, gas forwarding): not built', 'RETD, deeper call stacks (depth enters only through frames.last())',
+                   '"callee cannot modify the caller\'s stack" is the C24 ownership obligation with the callee\'s $ssp'],
+     level_text='One-step bounded model checking of the return path: all registers restored from the saved frame except gas, $ret, $retl, $hp; pc = saved pc + 4; call depth decremented; memory untouched; unspent gas credited back.',
+     level_note='Trusted: Kani/CBMC/cadical, split_registers model.')
+
+prop('C29',
+     builds=[dict(crate='vm', filters=['c29_', 'c21_add', 'c21_div_', 'c21_sll', 'c24_sw', 'c24_mcpi', 'c25_jmpb', 'c25_fetch', 'c25_jal', 'c22_wdop_add_ind', 'c34_ret_from_call', 'c26_gas_charge'])],
+     default=dict(mem=4, timeout={'quick': 900, 'thorough': 2400}),
+     min_harnesses={'quick': 10, 'thorough': 10},
+     bug_new_is_violation=True,
+     functions_encoded=['GasCosts::default() table', 'InterpreterError::{from_runtime, instruction_result, panic_reason}', 'Interpreter::instruction_inner (undefined opcodes)',
+                        'a sample of the handler harnesses of C21, C22, C24, C25, C26, C34 (real handlers; Kani default checks = no host panic; exact outcome assertions = never RuntimeError::Bug; a reachable Bug::new is reported by Kani as an unsupported construct and mapped to a violation candidate)'],
+     bounds=['per-step obligations from arbitrary VMINV states, bounds as in the sampled properties', 'default gas schedule: every fixed cost >= 1 and every dependent cost resolves to >= 1 for all unit counts'],
+     assumptions=[VM_STUBS_NOTE],
+     out_of_claim=['whole-transaction checking/execution (composition by induction over steps: every covered step ends in a program state, a panic or a storage error and strictly decreases $ggas)',
+                   'handlers without a step harness (listed as uncovered in C22/C24/C27/C30/C33)'],
+     level_text='Step-level bounded model checking: no host panic and no internal-bug result in one step of the covered handlers from any VMINV state, total error classification, undefined opcodes refused, and strict gas decrease under the default schedule (termination argument).',
+     level_note='Trusted: Kani/CBMC/cadical, split_registers model; induction over steps is an argument, not a solver query.')
 
 # ---------------------------------------------------------------------------------------
 def opts_for(pid, h, tier):
